@@ -58,6 +58,26 @@ thread_local! {
     static LIVE: Cell<i64> = const { Cell::new(0) };
 }
 
+thread_local! {
+    /// while set, key comparisons skip every ledger check and callback (bulk filling / observation of
+    /// very large containers by the harness itself, never during a measured call)
+    static QUIET: Cell<bool> = const { Cell::new(false) };
+}
+pub fn is_quiet() -> bool {
+    QUIET.try_with(|q| q.get()).unwrap_or(false)
+}
+pub struct Quiet(bool);
+impl Quiet {
+    pub fn new() -> Self {
+        Quiet(QUIET.with(|q| q.replace(true)))
+    }
+}
+impl Drop for Quiet {
+    fn drop(&mut self) {
+        QUIET.with(|q| q.set(self.0));
+    }
+}
+
 pub fn live_blocks() -> i64 {
     LIVE.try_with(|c| c.get()).unwrap_or(0)
 }
